@@ -206,7 +206,19 @@ func (db *DB) ScanPrefix(prefix []byte, errOut *error) iter.Seq[kv.Entry] {
 	mtIter := db.mtables.ScanPrefix(prefix, errOut)
 	sstables := db.currentSSTables()
 	iters := []iter.Seq[kv.Entry]{mtIter, sstables.ScanPrefix(prefix, errOut)}
-	return kv.MergeEntries(iters)
+
+	// The memtable entries include tombstones so that they mask older versions
+	// in the sstables. Drop them once everything is merged.
+	return func(yield func(kv.Entry) bool) {
+		for entry := range kv.MergeEntries(iters) {
+			if entry.IsDelete() {
+				continue
+			}
+			if !yield(entry) {
+				return
+			}
+		}
+	}
 }
 
 // Checkpoint initiates a DB checkpoint associated with the caller's provided
